@@ -580,6 +580,9 @@ fn regular_table(g: &mut G, nrows: usize, ncols: usize, spans: bool, nest: bool,
             if nest && class == 9 && top {
                 let (nr, nc) = (1 + g.r.below(2) as usize, 1 + g.r.below(3) as usize);
                 kids.push(regular_table(g, nr, nc, spans, false, uniq, next, cells, false, false));
+            } else if class == 1 && g.r.chance(1, 2) {
+                // a cell that holds white space only (as pretty-printed markup has): as empty as an empty one
+                kids.push(if g.r.chance(1, 4) { N::el("span", vec![N::T(" ".into())]) } else { N::T((*g.r.pick(&[" ", "\n", "\n    ", " \t "])).to_string()) });
             } else if class >= 2 {
                 let tiny = s > 1 && g.r.chance(1, 3);      // text shorter than the span
                 let nwords = if tiny { 1 } else { match class { 2 | 3 | 4 => 1, 5 | 6 => 1 + g.r.below(3), _ => 2 + g.r.below(6) } };
